@@ -75,6 +75,16 @@ P = {
    "Integer operands: exact result if it fits i64, otherwise Err or the float continuation, never another integer or a crash; divided_by/modulo jointly satisfy n = q*d + r, |r| < |d|, zero divisor is an error; float operands: IEEE result bit-for-bit; numeric strings behave as numbers; ceil/floor/round give the documented neighbour (ties away from zero).",
    "integer division may truncate or floor; float modulo truncated or floored; float zero divisor may be an error or the IEEE result; overflow continuation = nearest double of the exact result or the IEEE operation on converted operands",
    "DESIGN.md §5 C15"),
+ "C16": (True, "enum", "exploration",
+   "exhaustive enumeration of all strings up to length 4-6 over the three alphabets of the statement (plus entity-token sequences), checked against character scans, inversion, an independent escape_once reference, an independent URL decoder and a tag scan",
+   "escape: no raw special character, every & starts one of the five entities, un-escaping gives the input; escape_once: same scan, equals the independent reference, idempotent; url_encode: output alphabet and %XX shape, url_decode inverts it and equals the reference decoder (Err iff not UTF-8); strip_html: no complete <...> tag survives, output is a subsequence of the input, tag-free text unchanged.",
+   "alphabets as in the statement, extended with all letters of the entity names",
+   "DESIGN.md §5 C16"),
+ "C17": (True, "enum", "exploration",
+   "exhaustive grid of timestamps x strftime formats (every directive x flags x widths, unknown and malformed formats, concatenations) against an independent calendar/formatter that must first reproduce the module's own expectation tables; all parser syntaxes; round trips; all ordered pairs for chronological comparison",
+   "Every (timestamp, format) of the grid is formatted through the public DateTime API (and through the date/date_in_tz filters on a sub-grid) and compared with the reference; every accepted input syntax with and without offset must parse to the right instant and offset; from_str(to_string(x)) must preserve instant and offset; == and < must agree with UTC nanosecond counts.",
+   "`#` and flags/width on the zone directives compared modulo padding/case; negative years and now/today outside the grid; %Z prints the numeric offset (documented deviation)",
+   "DESIGN.md §5 C17"),
 }
 ORDER = ["C%02d" % i for i in range(1, 21)]
 REASON_WIP = "check not built yet in this round (work in progress; planned per DESIGN.md §5)"
